@@ -141,15 +141,34 @@ def check_decode_number(utils, sig, rep, tier):
         claim = z3.Implies(z3.Not(sent), z3.Not(none_c))
     st, m = prove(claim, label="B1 none-rule " + tag)
     results.append(("none-rule", st, (m.eval(x, True).as_long() if st == "sat" else None)))
-    # B3: no spurious failure: raw in DB range (exact integer condition) => no raise   [exact binary64]
-    inr = z3.And(in_range_bv(sig, x), z3.Not(sent)) if not sig.sentinel_in_range() else in_range_bv(sig, x)
-    st, m = prove(z3.Not(rc), [inr], label="B3 in-range-accepted " + tag, timeout_ms=120000 if tier == "thorough" else 60000)
-    results.append(("in-range-rejected", st, (m.eval(x, True).as_long() if st == "sat" else None)))
-    # B2: value = raw*Resolution + Offset to within binary64 rounding   [rounding-error model]
+    # B2/B3 share one run of the real kernel over mathematical integers and the rounding-error model
     with real_context() as c:
         xi = z3.Int("xi")
-        outz, rcz, _ = run_kernel(utils.decode_number, SymIntZ(xi), 0, L, sig.signed, sig.res_py, sig.min_py, sig.max_py)
+        outz, rcz, _ = run_kernel(utils.decode_number, SymIntZ(xi, (0, L)), 0, L, sig.signed, sig.res_py, sig.min_py, sig.max_py)
         dom = [xi >= 0, xi < (1 << L)] + c.cons
+    sxz = z3.If(xi >= (1 << (L - 1)), xi - (1 << L), xi) if sig.signed else xi
+    # B3: no spurious failure: raw in DB range (exact integer condition) => no raise.  Proved in the rounding-error model
+    # (every binary64 execution is a model); only if that fails is exact binary64 asked (and must confirm before reporting)
+    lo_, hi_ = sig.raw_range()
+    inr_z = z3.And(*([sxz >= lo_] if lo_ is not None else []) + ([sxz <= hi_] if hi_ is not None else []) + [z3.BoolVal(True)])
+    if not sig.sentinel_in_range():
+        inr_z = z3.And(inr_z, xi != sig.sentinel)
+    st, m = prove(z3.Not(rcz), dom + [inr_z], label="B3 in-range-accepted (rounding model) " + tag)
+    wit3 = None
+    if st != "unsat":
+        inr = z3.And(in_range_bv(sig, x), z3.Not(sent)) if not sig.sentinel_in_range() else in_range_bv(sig, x)
+        cand = m.eval(xi, True).as_long() if st == "sat" else None
+        st = None
+        if cand is not None:
+            # try the candidate itself in exact binary64 (constant folding), then the general exact query
+            g = z3.simplify(z3.substitute(rc, (x, z3.BitVecVal(cand, L))))
+            if z3.is_true(g):
+                st, wit3 = "sat", cand
+        if st is None:
+            st, m = prove(z3.Not(rc), [inr], label="B3 in-range-accepted (exact) " + tag, timeout_ms=120000 if tier == "thorough" else 45000)
+            wit3 = m.eval(x, True).as_long() if st == "sat" else None
+    results.append(("in-range-rejected", st, wit3))
+    # B2: value = raw*Resolution + Offset to within binary64 rounding   [rounding-error model]
     nz = outz.none if isinstance(outz, SymOpt) else z3.BoolVal(outz is None)
     val = outz.inner if isinstance(outz, SymOpt) else outz
     if val is not None:
